@@ -405,7 +405,43 @@ class Normalizer:
         self._local_constants()
         self._beta_reduce()
         self._attr_builtins()
+        self._fold_constant_tests()
         self._drop_folded()
+
+    def _fold_constant_tests(self):
+        """`if <constant test>:` / `<a> if <constant test> else <b>` left behind when a helper was spliced with a constant
+        argument (two near-duplicate functions merged behind a `direction` / flag parameter: `if 1 > 0:` ... `if not 1 > 0:`)
+        are replaced by the branch that is taken.  Only tests built from literals, comparisons of literals, `not`, `and`,
+        `or` are evaluated; names are never looked up."""
+        me = self
+
+        class T(ast.NodeTransformer):
+            def visit_If(self, n):
+                self.generic_visit(n)
+                v = _const_truth(n.test)
+                if v is None:
+                    return n
+                me.log.append(f"constant test `{ast.unparse(n.test)}` folded (line {getattr(n, 'lineno', '?')})")
+                taken = n.body if v else n.orelse
+                return taken if taken else ast.copy_location(ast.Pass(), n)
+
+            def visit_IfExp(self, n):
+                self.generic_visit(n)
+                v = _const_truth(n.test)
+                if v is None:
+                    return n
+                me.log.append(f"constant test `{ast.unparse(n.test)}` folded (line {getattr(n, 'lineno', '?')})")
+                return n.body if v else n.orelse
+
+        for tree in self.trees.values():
+            T().visit(tree)
+            # a body emptied by the fold keeps a `pass`
+            for n in ast.walk(tree):
+                for f in ('body', 'orelse', 'finalbody'):
+                    b = getattr(n, f, None)
+                    if isinstance(b, list) and not b and f == 'body' and isinstance(n, (ast.FunctionDef, ast.For, ast.While, ast.If, ast.With, ast.ClassDef, ast.Try, ast.ExceptHandler)):
+                        b.append(ast.Pass())
+            ast.fix_missing_locations(tree)
 
     def _drop_folded(self):
         """a helper whose every use was folded is removed, so that whole-package scans do not see its body twice"""
@@ -713,6 +749,61 @@ class Normalizer:
 
 
 _BUILTIN_METHODS = set(dir(list)) | set(dir(dict)) | set(dir(set)) | set(dir(str)) | set(dir(tuple))
+
+
+def _const_value(e):
+    """(True, value) for an expression made of literals only (comparisons, not/and/or, unary minus), else None"""
+    if isinstance(e, ast.Constant) and not isinstance(e.value, (str, bytes)) or isinstance(e, ast.Constant) and e.value in ('',):
+        return True, e.value
+    if isinstance(e, ast.UnaryOp) and isinstance(e.op, (ast.Not, ast.USub)):
+        r = _const_value(e.operand)
+        if r is None:
+            return None
+        try:
+            return True, (not r[1]) if isinstance(e.op, ast.Not) else -r[1]
+        except Exception:
+            return None
+    if isinstance(e, ast.Compare) and len(e.ops) == 1:
+        a, b = _const_value(e.left), _const_value(e.comparators[0])
+        if a is None or b is None:
+            return None
+        op = e.ops[0]
+        try:
+            if isinstance(op, ast.Gt):
+                return True, a[1] > b[1]
+            if isinstance(op, ast.GtE):
+                return True, a[1] >= b[1]
+            if isinstance(op, ast.Lt):
+                return True, a[1] < b[1]
+            if isinstance(op, ast.LtE):
+                return True, a[1] <= b[1]
+            if isinstance(op, ast.Eq):
+                return True, a[1] == b[1]
+            if isinstance(op, ast.NotEq):
+                return True, a[1] != b[1]
+            if isinstance(op, ast.Is) and (a[1] is None or b[1] is None or isinstance(a[1], bool) and isinstance(b[1], bool)):
+                return True, a[1] is b[1]
+            if isinstance(op, ast.IsNot) and (a[1] is None or b[1] is None or isinstance(a[1], bool) and isinstance(b[1], bool)):
+                return True, a[1] is not b[1]
+        except Exception:
+            return None
+        return None
+    if isinstance(e, ast.BoolOp):
+        vals = [_const_value(v) for v in e.values]
+        if any(v is None for v in vals):
+            return None
+        if isinstance(e.op, ast.And):
+            return True, all(v[1] for v in vals)
+        return True, any(v[1] for v in vals)
+    return None
+
+
+def _const_truth(test) -> Optional[bool]:
+    """truth of a test that is a *compound* of literals (a bare literal such as `while True` / `if 0` is left alone)"""
+    if isinstance(test, ast.Constant):
+        return None
+    r = _const_value(test)
+    return bool(r[1]) if r is not None else None
 
 
 def _immutable_const(x) -> bool:
